@@ -17,6 +17,9 @@ REGISTRY = {
     "C07": ("cores", {"rel": []}),
     "C08": ("itp", {"rel": []}),
     "C09": ("itp", {"rel": []}),
+    "C18": ("procmon", {"asan": []}),
+    "C20": ("procmon", {"rel": []}),
+    "C23": ("procmon", {"rel": []}),
     "C29": ("history", {"rel": []}),
     "C30": ("history", {"rel": []}),
 }
